@@ -15,7 +15,7 @@ RULE = ("every interleaving (loom: DPOR, unbounded or preemption-bounded as list
         "acquire/release, and the dispatcher/worker throttling protocol of rehash(). A state is one complete "
         "execution; transitions are semaphore operations executed. Invariants: holders <= permits, no deadlock, "
         "permit count restored. Call-site conformance (binds the protocol model to group.rs): the real `group` runs "
-        "with RLIMIT_NOFILE reported as 100 (70, 150 in thorough) by the interposer while the real limit stays large (also: soft 100 / hard 4096 with setrlimit refused, so that the soft limit stays in force), pools of 200-300 threads, pinned disk kind ssd / hdd / unknown (the latter two run the extents stage, whose FIEMAP calls all fail on tmpfs), 300 small / 120 three-stage "
+        "with RLIMIT_NOFILE reported as 100 (70, 150 in thorough) by the interposer while the real limit stays large (also: soft 100 / hard 4096 with setrlimit refused, so that the soft limit stays in force), pools of 200-300 threads (and pool sizes given as 0 = number of cores), pinned disk kind ssd / hdd / unknown (the latter two run the extents stage, whose FIEMAP calls all fail on tmpfs), 300 small / 120 three-stage "
         "files, every read delayed by 20 ms (the schedule that maximises overlap); a monitor counts descriptors open "
         "on scanned files: never more than the reported limit, the run ends, every duplicate pair is reported. These "
         "runs are single executions (not exhaustive); they are counted as one state each.")
@@ -89,6 +89,11 @@ def cases(tier, seed):
               "setrlimit_errno": 1})
     q.append({"engine": "e2e", "tree": "big120", "threads": ["-t", "default:200,200"], "extra": [], "nofile": 100, "hard": 4096,
               "setrlimit_errno": 1})
+    # pool sizes given as 0 ("as many threads as cores"): the throttling semaphores must still get permits
+    for threads, disk in ((["-t", "0"], "ssd"), (["-t", "default:0,2"], "ssd"), (["-t", "unknown:0,1"], "unknown"), (["-t", "main:0"], "ssd"),
+                          (["-t", "0,0"], "hdd")):
+        q.append({"engine": "e2e", "tree": "small300", "threads": threads, "extra": [], "nofile": 100, "disk": disk, "timeout": 90,
+                  "budget_need_not_fill": True})
     if tier == "quick":
         return q
     th = list(q)
@@ -128,14 +133,14 @@ def evaluate_e2e(case):
             env["FCSHIM_FAKE_NOFILE_HARD"] = str(case["hard"])
         if case.get("setrlimit_errno"):
             env["FCSHIM_SETRLIMIT_ERRNO"] = str(case["setrlimit_errno"])
-        res = S.run_with_shim(sc, args, [sc.tree], "r", env_extra=env, timeout=300)
+        res = S.run_with_shim(sc, args, [sc.tree], "r", env_extra=env, timeout=case.get("timeout", 300))
         feat = {"mode": "call_sites", "engine": "e2e", "transform": bool(case["extra"])}
         ctx = "`fclones %s` with RLIMIT_NOFILE reported as %d, %d files of %d bytes, reads delayed" % (
             " ".join(args), case["nofile"], n, size)
         maxopen = int(res["marks"].get("MAXOPEN", -1))
         opens = sum(1 for e in res["events"] if e.call == "open")
         if res["timeout"]:
-            viol.append(dict(feat, kind="hang", detail=ctx + ": did not finish within 300 s"))
+            viol.append(dict(feat, kind="hang", detail=ctx + ": did not finish within %d s" % case.get("timeout", 300)))
         elif res["rc"] != 0:
             viol.append(dict(feat, kind="run_failed", detail="%s: rc=%s %s" % (ctx, res["rc"], res["err"][-300:])))
         else:
@@ -150,7 +155,7 @@ def evaluate_e2e(case):
             if got != exp:
                 viol.append(dict(feat, kind="files_dropped", detail="%s: %d of %d pairs reported; stderr %s" % (
                     ctx, len(got), len(exp), res["err"][-200:])))
-    contended = maxopen >= min(case["nofile"] - 5, 64) - 1
+    contended = maxopen >= min(case["nofile"] - 5, 64) - 1 or (case.get("budget_need_not_fill") and maxopen > 0)
     return {"violations": viol, "states": 1, "transitions": max(opens, 1), "evaluations": 1,
             "nontrivial": [["e2e", case["tree"], " ".join(case["threads"] + case["extra"]), case["nofile"], case.get("disk", "ssd"), case.get("hard"), case.get("setrlimit_errno")]] if contended else None,
             "outcome": "e2e_budget_reached" if contended else "e2e_budget_not_reached",
